@@ -851,6 +851,10 @@ impl Instruction
 			{
 				if lhs >= Register::R8 || rhs >= Register::R8
 				{
+					if lhs == Register::PC || rhs == Register::PC
+					{
+						return Err(EncodeError::Unrepresentable);
+					}
 					let lhs = u8::from(lhs) as u16;
 					s(0b01000101_0_0000_000 | ((lhs & 0b1000) << 4) | ((u8::from(rhs) as u16) << 3) | ((lhs & 0b111) << 0))
 				}
